@@ -250,6 +250,7 @@ class C05(Property):
                 e = case['events'][flat[0]]
                 want = {'type': e['type'], 'source': e['source'], 'parents': sorted(set(e.get('parents', []))),
                         'props': sorted([p['name'], c04.objects(e, p['name'])] for p in et['props'] if c04.objects(e, p['name']))}
+                want['xml'] = 'same'
                 if out['ok'] != want:
                     return 'merging event %d with a copy of itself gives %r, not the event %r' % (flat[0], out['ok'], want)
             if is_tree and et['vp'] is None:
